@@ -1,7 +1,7 @@
 #!/bin/bash
 # usage: try_mutation.sh <patch.diff> <prop> [<prop> ...]   -- applies the patch to a scratch worktree of /repo HEAD,
 # runs the quick checks of the given properties against it (VERIF_REPO), prints the verdicts, removes the worktree.
-patch=$1; shift
+patch=$(realpath $1); shift
 wt=$(mktemp -d /tmp/mutwt-XXXXXX); rmdir $wt
 git -C /repo worktree add -q $wt HEAD || exit 3
 if ! git -C $wt apply "$patch"; then echo "PATCH-DOES-NOT-APPLY $patch"; git -C /repo worktree remove --force $wt; exit 3; fi
